@@ -11,6 +11,7 @@ outcomes (C02/C03/C04/C06), in place when the contents fit (C10), strong when it
 -/
 import SvModel.Proofs.Assign
 import SvModel.Proofs.SysInv
+import SvModel.Proofs.GrowCalls
 
 namespace SvModel
 open Gen
@@ -138,6 +139,8 @@ theorem copyAssignDefault_eq (cfg : Cfg) (c o : Nat) (w : World α) (hsz : (w.hd
       (assignWithRangeFwd cfg c (srcsCopy (w.hdr o).data 0 (w.hdr o).size) >>= fun _ =>
         setAlloc c (maybeCopy cfg.policy (w.hdr c).alloc (w.hdr o).alloc)) w := by
   unfold copyAssignDefault assignWithRangeFwd
+  rw [assignWithRange_calls.1, assignWithRange_calls.2]
+  simp only [calcNewCapacity_checked, allocateBy_unchecked]
   rw [bind_run, getV_run]
   simp only []
   rw [bind_run, getV_run]
@@ -219,6 +222,8 @@ theorem copyInPlace_eq (cfg : Cfg) (c o : Nat) (w : World α) (hfit : ¬ (w.hdr 
     (copyAssignInPlace cfg c (w.hdr c) (w.hdr o) (decide ((w.hdr c).size < (w.hdr o).size)) >>= fun _ => setSize c (w.hdr o).size) w =
       assignWithRangeFwd cfg c (srcsCopy (w.hdr o).data 0 (w.hdr o).size) w := by
   unfold assignWithRangeFwd
+  rw [assignWithRange_calls.1, assignWithRange_calls.2]
+  simp only [calcNewCapacity_checked, allocateBy_unchecked]
   rw [bind_run (m := getV c), getV_run]
   simp only [srcsCopy_length]
   have f0 : guard_assignWithRange1_0 { genv cfg (w.hdr c) with count := (w.hdr o).size } = decide ((w.hdr c).cap < (w.hdr o).size) := rfl
